@@ -6,7 +6,8 @@ of `react`, then `call`s, `close`, `log`.
 
   hclient init <proto 0 auto|1 udp|2 mcast|3 tcp> <creds> <backch> <anyport> <secure> <srvauth>     → ok
   hclient react <METHOD|*> <k> <ev>|<ev>|…   reaction of the server to the k-th request with that method
-                                     (`*`: k-th request of any method); other requests get the correct response  → ok
+                                     (`*`: k-th request of any method; k = 0: every request with that method); other requests get the correct response  → ok
+  hclient accept <j> <ev>|…          what the server writes as soon as it has accepted the j-th connection   → ok
   hclient call <api> [<mi> <back> <ctlOk>]     api = options describe announce setup play record pause
         → <res> <state> <closed 0|1> <closeRes>
   hclient close                      → <state> <closed> <closeRes>
@@ -18,7 +19,7 @@ events:  r[,k=v…] response = the correct response to the request with fields o
          x read error (close / garbage).  End of the list while the client waits = silence (timer).
 
 A `call` feeds the API call, then events in FIFO order: every request the client writes appends the
-server's reaction to the inbox, a new connection (dial) drops what was queued on the old one; while
+server's reaction to the inbox, a new connection (dial) or the client closing its connection drops what was queued on the old one; while
 the client waits and the inbox is empty the timer fires; once the call has returned the remaining
 events are consumed by the idle run loop (the harness waits for that before the next call).
 -/
@@ -33,6 +34,8 @@ structure D where
   inbox : List Ev := []
   nreq : Nat := 0
   nmeth : List (String × Nat) := []
+  accepts : List (Nat × String) := []
+  ndial : Nat := 0
   log : List Out := []
 
 /-- the request a reaction answers -/
@@ -150,9 +153,15 @@ def drain (d : D) : D := Id.run do
       d := { d with nreq := d.nreq + 1, nmeth := (mn, occ) :: d.nmeth }
       let raw := match d.reacts.lookup (mn, occ) with
         | some r => r
-        | none => (d.reacts.lookup ("*", d.nreq)).getD "r"
+        | none => match d.reacts.lookup (mn, 0) with
+          | some r => r
+          | none => (d.reacts.lookup ("*", d.nreq)).getD "r"
       d := { d with inbox := d.inbox ++ parseEvs d.srvAuth { m := m, cseq := cs, auth := au, tp := tp } raw }
-    | .dial => d := { d with inbox := [] }
+    | .dial =>
+      let j := d.ndial + 1
+      let raw := (d.accepts.lookup j).getD "-"
+      d := { d with ndial := j, inbox := parseEvs d.srvAuth { m := .options, cseq := 0, auth := false, tp := 0 } raw }
+    | .hangup => d := { d with inbox := [] }
     | _ => pure ()
   return { d with log := d.log ++ d.st.out, st := { d.st with out := [] } }
 
@@ -198,6 +207,10 @@ def mk : IO Handler := do
     | ["react", mn, k, evs] =>
       match k.toNat? with
       | some k => ref.modify fun d => { d with reacts := ((mn, k), evs) :: d.reacts }; return "ok"
+      | none => return "bad-op"
+    | ["accept", j, evs] =>
+      match j.toNat? with
+      | some j => ref.modify fun d => { d with accepts := (j, evs) :: d.accepts }; return "ok"
       | none => return "bad-op"
     | "call" :: rest =>
       match parseApi rest with
